@@ -30,15 +30,19 @@ type concCase struct {
 	Transport  string     `json:"transport"`
 	Threshold  int        `json:"threshold"`
 	ShareErr   bool       `json:"share_error_object"`
+	Mount      string     `json:"mount,omitempty"`
 	Calls      []callCase `json:"calls"`
 }
 
 func checkConcurrent(rec *stats.Recorder, c concCase) string {
 	old := runtime.GOMAXPROCS(c.Procs)
 	defer runtime.GOMAXPROCS(old)
-	w := getWorld("bare")
+	if c.Mount == "" {
+		c.Mount = "bare"
+	}
+	w := getWorld(c.Mount)
 	cfg := clientConfig{Threshold: c.Threshold, Transport: c.Transport}
-	rec.Case(fmt.Sprintf("gomaxprocs=%d", c.Procs), "transport="+c.Transport, fmt.Sprintf("concurrent_calls=%d", len(c.Calls)/8*8))
+	rec.Case("mount="+c.Mount, fmt.Sprintf("gomaxprocs=%d", c.Procs), "transport="+c.Transport, fmt.Sprintf("concurrent_calls=%d", len(c.Calls)/8*8))
 	rec.NonTrivial("concurrent", hx.J(c), func() any {
 		// samples stay small: the first two calls only
 		s := c
@@ -86,6 +90,9 @@ func checkConcurrent(rec *stats.Recorder, c concCase) string {
 			return fmt.Sprintf("call %d panicked: %s", i, r.pan)
 		}
 		mi := dyn.FindMethod(S, cc.Call.Resource, cc.Call.Method)
+		if msg := viewsAgree(r.sl); msg != "" {
+			return fmt.Sprintf("call %d of %d concurrent calls: %s", i, len(c.Calls), msg)
+		}
 		if c.ShareErr && i%3 == 0 {
 			var rerr *restli.Error
 			if r.err == nil || !errors.As(r.err, &rerr) {
@@ -127,10 +134,11 @@ func TestC17Concurrent(t *testing.T) {
 		c.Transport = rapid.SampledFrom([]string{"inprocess", "inprocess", "http"}).Draw(rt, "transport")
 		c.Threshold = rapid.SampledFrom([]int{0, 1}).Draw(rt, "threshold")
 		c.ShareErr = rapid.Bool().Draw(rt, "share")
+		c.Mount = rapid.SampledFrom([]string{"filtered", "bare", "filtered"}).Draw(rt, "mount")
 		n := rapid.IntRange(2, 32).Draw(rt, "n")
 		for i := 0; i < n; i++ {
 			mi := methods[pick(rt, len(methods), "method")]
-			cc := callCase{CorpusSeed: corpusSeed, Mount: "bare", Config: clientConfig{Threshold: c.Threshold, Transport: c.Transport}}
+			cc := callCase{CorpusSeed: corpusSeed, Mount: c.Mount, Config: clientConfig{Threshold: c.Threshold, Transport: c.Transport}}
 			cc.Call = genCall(rt, g, mi)
 			cc.Outcome = genOutcome(rt, g, mi, &cc.Call)
 			c.Calls = append(c.Calls, cc)
